@@ -44,12 +44,13 @@ def euclid_requests(rng, ds, prof):
 
 
 def mk(kind, q, acc, egr):
+    q = dict(q)
     if kind == "access":
         rows = acc if q["fwd"] else egr
-        return dict(kind="access", path=l3.access_qs(q), acc=rows, egr=rows)
+        return dict(kind="access", path=l3.access_qs(q), acc=rows, egr=rows, q=q)
     if kind == "summary":
-        return dict(kind="summary", path=l3.summary_qs(q, False), acc=acc, egr=egr)
-    return dict(kind=kind, path=l3.route_qs(q, kind == "alt"), acc=acc, egr=egr)
+        return dict(kind="summary", path=l3.summary_qs(q, False), acc=acc, egr=egr, q=q)
+    return dict(kind=kind, path=l3.route_qs(q, kind == "alt"), acc=acc, egr=egr, q=q)
 
 
 def osrm_requests(rng, ds, prof):
@@ -77,7 +78,26 @@ def history_spec(seed, tier, index):
     ds = gen.gen_dataset(rng.fork(), prof)
     if euclid:
         ds.lon_off = {n: 15 * n for n in ds.nodes}        # stops about 2 m apart (see euclid_requests)
+    clustered = (not euclid) and (index // 2) % 2 == 0 and len(ds.nodes) >= 4
+    if clustered:
+        # two stop clusters 39 km apart: the stops the server asks the router about DIFFER from one request to the next
+        # (whatever a lookup leaves behind in the filter -- candidates, rows -- belongs to other stops than the next one's)
+        l3.set_clusters(ds, 2)
     reqs = (euclid_requests if euclid else osrm_requests)(rng.fork(), ds, prof)
+    if clustered:
+        for r in reqs:
+            q = r.get("q")
+            if q is None:
+                continue
+            acc, egr = r["acc"], r["egr"]
+            q["origin_off"] = l3.lon_off(ds, acc[0][0]) if acc else 0
+            q["dest_off"] = l3.lon_off(ds, egr[0][0]) if egr else l3.CLUSTER_STEP
+            if r["kind"] == "access":
+                r["path"] = l3.access_qs(q)
+            elif r["kind"] == "summary":
+                r["path"] = l3.summary_qs(q, False)
+            else:
+                r["path"] = l3.route_qs(q, r["kind"] == "alt")
     # invalid / failing requests in between
     for k, bad in enumerate(INVALID):
         reqs.insert((k * 5 + 2) % (len(reqs) + 1), dict(bad))
@@ -98,7 +118,7 @@ def history_spec(seed, tier, index):
     order_c = r2.sample(order_a, len(order_a))
     order_c = [x for i, j in enumerate(order_c) for x in ((j, j) if i % 3 == 0 else (j,))]
     fresh = r2.sample(order_a, 2 if tier == "quick" else 4)
-    return dict(index=index, euclid=euclid, cache_all=(index // 2) % 2 == 1, profile=prof_name, ds=ds, requests=reqs,
+    return dict(index=index, euclid=euclid, clustered=clustered, cache_all=(index // 2) % 2 == 1, profile=prof_name, ds=ds, requests=reqs,
                 orders=dict(A=order_a, B=order_b, C=order_c), fresh=fresh)
 
 
@@ -114,6 +134,8 @@ def run_history(binary, spec, workdir):
                 orders=spec["orders"], binary=binary)
     fails, evals, answers = [], 0, {}
     stub = l3.OsrmStub()
+    if spec.get("clustered"):
+        stub.set_layout(ds)
     extra = ("--useEuclideanDistance=true",) if spec["euclid"] else ()
 
     def fail(why, **kw):
